@@ -1067,6 +1067,334 @@ fn judge_recovery_paths(wl: &Workload, st: &CrashState, ev: &Event, dir: &Path, 
     let _ = std::fs::remove_dir_all(&b);
 }
 
+
+// ------------------------------------------------------------------ C40 pass "catalog-serde"
+// First sentence of C40: saving and reloading the catalog yields an identical catalog.  Every catalog of a
+// bounded constructive space (one feature varied at a time over a two-schema base, then all feature pairs of a
+// reduced menu) is serialized and deserialized into a fresh `Catalog::new()` — in memory and through
+// save()/load() on a file — and every table definition is compared with the original by the repository's own
+// `PartialEq` (ids, names, columns, types, constraints incl. both FK actions, defaults, max lengths, primary key,
+// indexes with direction / expression / WHERE, toast id).  row_count is not persisted by design and stays 0.
+mod catalog_serde {
+    use super::*;
+    use turdb::schema::persistence::CatalogPersistence;
+    use turdb::schema::table::{ColumnDef, Constraint, IndexColumnDef, IndexDef, IndexType, ReferentialAction, SortDirection, TableDef};
+    use turdb::schema::Catalog;
+    use turdb::types::DataType;
+
+    pub const TYPES: &[DataType] = &[
+        DataType::Bool, DataType::Int2, DataType::Int4, DataType::Int8, DataType::Float4, DataType::Float8, DataType::Date, DataType::Time,
+        DataType::Timestamp, DataType::TimestampTz, DataType::Uuid, DataType::MacAddr, DataType::Inet4, DataType::Inet6, DataType::Text,
+        DataType::Blob, DataType::Vector, DataType::Jsonb, DataType::Varchar, DataType::Char, DataType::Decimal, DataType::Interval,
+        DataType::Int4Range, DataType::Int8Range, DataType::DateRange, DataType::TimestampRange, DataType::Enum, DataType::Point,
+        DataType::Box, DataType::Circle, DataType::Composite, DataType::Array,
+    ];
+    const ACTIONS: &[Option<ReferentialAction>] = &[None, Some(ReferentialAction::Cascade), Some(ReferentialAction::Restrict), Some(ReferentialAction::NoAction), Some(ReferentialAction::SetNull), Some(ReferentialAction::SetDefault)];
+
+    fn constraint_menu() -> Vec<(String, Vec<Constraint>)> {
+        let mut v: Vec<(String, Vec<Constraint>)> = vec![
+            ("none".into(), vec![]),
+            ("notnull".into(), vec![Constraint::NotNull]),
+            ("pk".into(), vec![Constraint::PrimaryKey]),
+            ("unique".into(), vec![Constraint::Unique]),
+            ("autoinc".into(), vec![Constraint::AutoIncrement]),
+            ("check".into(), vec![Constraint::Check("c0 > 0 AND c0 <> 7".into())]),
+            ("check-empty".into(), vec![Constraint::Check(String::new())]),
+            ("check-utf8".into(), vec![Constraint::Check("c0 <> 'é∑'".into())]),
+            ("notnull+unique+check".into(), vec![Constraint::NotNull, Constraint::Unique, Constraint::Check("c0 < 5".into())]),
+            ("check+check".into(), vec![Constraint::Check("c0 < 5".into()), Constraint::Check("c0 > 1".into())]),
+            ("pk+autoinc".into(), vec![Constraint::PrimaryKey, Constraint::AutoIncrement]),
+        ];
+        for d in ACTIONS {
+            for u in ACTIONS {
+                v.push((format!("fk:{d:?}/{u:?}"), vec![Constraint::ForeignKey { table: "parent".into(), column: "id".into(), on_delete: *d, on_update: *u }]));
+            }
+        }
+        v.push(("fk+notnull".into(), vec![Constraint::ForeignKey { table: "p2".into(), column: "k".into(), on_delete: Some(ReferentialAction::SetNull), on_update: Some(ReferentialAction::Cascade) }, Constraint::NotNull]));
+        v
+    }
+    fn default_menu() -> Vec<Option<String>> {
+        vec![None, Some("0".into()), Some(String::new()), Some("'x y'".into()), Some("CURRENT_TIMESTAMP".into()), Some("'é'".into()), Some("z".repeat(300))]
+    }
+    const MAXLEN: &[Option<u32>] = &[None, Some(0), Some(1), Some(255), Some(256), Some(70_000), Some(u32::MAX)];
+
+    fn index_menu() -> Vec<(String, IndexDef)> {
+        let mut v = Vec::new();
+        for uq in [false, true] {
+            for ty in [IndexType::BTree, IndexType::Hnsw] {
+                let tag = format!("{}{:?}", if uq { "u" } else { "n" }, ty);
+                v.push((format!("{tag}/col"), IndexDef::new("ix", vec!["c0"], uq, ty)));
+                v.push((format!("{tag}/2col"), IndexDef::new("ix", vec!["c0", "c1"], uq, ty)));
+                v.push((format!("{tag}/desc"), IndexDef::new_expression("ix", vec![IndexColumnDef::column_desc("c0")], uq, ty)));
+                v.push((format!("{tag}/asc+desc"), IndexDef::new_expression("ix", vec![IndexColumnDef::column("c1"), IndexColumnDef::column_desc("c0")], uq, ty)));
+                v.push((format!("{tag}/expr"), IndexDef::new_expression("ix", vec![IndexColumnDef::expression("lower(c1)")], uq, ty)));
+                v.push((format!("{tag}/expr-desc+col"), IndexDef::new_expression("ix", vec![IndexColumnDef::expression("c0 + 1").with_direction(SortDirection::Desc), IndexColumnDef::column("c1")], uq, ty)));
+                v.push((format!("{tag}/partial"), IndexDef::new("ix", vec!["c0"], uq, ty).with_where_clause("c0 > 3".into())));
+                v.push((format!("{tag}/partial-expr"), IndexDef::new_expression("ix", vec![IndexColumnDef::expression("c0 * 2")], uq, ty).with_where_clause("c1 IS NOT NULL".into())));
+            }
+        }
+        v
+    }
+
+    /// one table under test: (label, definition)
+    fn base_cols() -> Vec<ColumnDef> {
+        vec![ColumnDef::new("c0", DataType::Int8), ColumnDef::new("c1", DataType::Text)]
+    }
+    fn col(ty: DataType, cons: &[Constraint], def: &Option<String>, ml: Option<u32>) -> ColumnDef {
+        let mut c = ColumnDef::new("c0", ty);
+        for k in cons {
+            c = c.with_constraint(k.clone());
+        }
+        if let Some(d) = def {
+            c = c.with_default(d.clone());
+        }
+        if let Some(m) = ml {
+            c = c.with_max_length(m);
+        }
+        c
+    }
+
+    pub fn cases(quick: bool) -> Vec<(String, TableDef)> {
+        let mut out: Vec<(String, TableDef)> = Vec::new();
+        let cm = constraint_menu();
+        let dm = default_menu();
+        let im = index_menu();
+        // (1) one feature at a time
+        for ty in TYPES {
+            out.push((format!("type:{ty:?}"), TableDef::new(7, "t", vec![col(*ty, &[], &None, None), ColumnDef::new("c1", DataType::Text)])));
+        }
+        for (n, cons) in &cm {
+            out.push((format!("cons:{n}"), TableDef::new(7, "t", vec![col(DataType::Int8, cons, &None, None), ColumnDef::new("c1", DataType::Text)])));
+        }
+        for (i, d) in dm.iter().enumerate() {
+            out.push((format!("default:{i}"), TableDef::new(7, "t", vec![col(DataType::Int8, &[], d, None), ColumnDef::new("c1", DataType::Text)])));
+        }
+        for m in MAXLEN {
+            out.push((format!("maxlen:{m:?}"), TableDef::new(7, "t", vec![col(DataType::Varchar, &[], &None, *m), ColumnDef::new("c1", DataType::Text)])));
+        }
+        for (n, ix) in &im {
+            out.push((format!("index:{n}"), TableDef::new(7, "t", base_cols()).with_index(ix.clone())));
+        }
+        for id in [0u64, 1, 255, 256, 65_535, 65_536, u32::MAX as u64, u32::MAX as u64 + 1, u64::MAX - 1] {
+            out.push((format!("id:{id}"), TableDef::new(id, "t", base_cols())));
+        }
+        for t in [1u64, 300, u32::MAX as u64 + 5] {
+            out.push((format!("toast:{t}"), TableDef::new(7, "t", base_cols()).with_toast_id(t)));
+        }
+        out.push(("pk:1".into(), TableDef::new(7, "t", base_cols()).with_primary_key(vec!["c0"])));
+        out.push(("pk:2".into(), TableDef::new(7, "t", base_cols()).with_primary_key(vec!["c1", "c0"])));
+        out.push(("pk:empty".into(), TableDef::new(7, "t", base_cols()).with_primary_key(Vec::<String>::new())));
+        out.push(("cols:0".into(), TableDef::new(7, "t", vec![])));
+        out.push(("cols:40".into(), TableDef::new(7, "t", (0..40).map(|i| ColumnDef::new(format!("k{i}"), TYPES[i % TYPES.len()])).collect())));
+        out.push(("name:utf8".into(), TableDef::new(7, "täble ∑", vec![ColumnDef::new("cöl", DataType::Int4)])));
+        out.push(("name:long".into(), TableDef::new(7, "n".repeat(300), vec![ColumnDef::new("c".repeat(300), DataType::Int4)])));
+        out.push(("two-indexes".into(), {
+            let mut t = TableDef::new(7, "t", base_cols()).with_index(IndexDef::new("i1", vec!["c0"], true, IndexType::BTree));
+            t.add_index(IndexDef::new_expression("i2", vec![IndexColumnDef::column_desc("c1")], false, IndexType::BTree).with_where_clause("c0 > 0".into()));
+            t
+        }));
+        // (2) pairs: constraints x defaults x max length on every type (reduced menus in the quick tier)
+        let cm2: Vec<&(String, Vec<Constraint>)> = if quick { cm.iter().filter(|(n, _)| !n.starts_with("fk:") || n == "fk:Some(Cascade)/Some(SetNull)" || n == "fk:None/Some(Restrict)").collect() } else { cm.iter().collect() };
+        let types2: Vec<DataType> = if quick { vec![DataType::Int8, DataType::Varchar, DataType::Vector, DataType::Decimal, DataType::Array] } else { TYPES.to_vec() };
+        for ty in &types2 {
+            for (n, cons) in &cm2 {
+                for (di, d) in dm.iter().enumerate() {
+                    for m in [None, Some(256u32)] {
+                        out.push((format!("pair:{ty:?}/{n}/d{di}/{m:?}"), TableDef::new(9, "t", vec![col(*ty, cons, d, m), ColumnDef::new("c1", DataType::Text)]).with_primary_key(vec!["c0"])));
+                    }
+                }
+            }
+        }
+        // (3) every constraint set next to every index shape (the two live in different sections of the record)
+        for (n, cons) in &cm2 {
+            for (inx, ix) in &im {
+                if !quick || inx.starts_with("nBTree") || inx.starts_with("uHnsw") {
+                    out.push((format!("cons-index:{n}/{inx}"), TableDef::new(11, "t", vec![col(DataType::Int8, cons, &None, None), ColumnDef::new("c1", DataType::Text)]).with_index(ix.clone())));
+                }
+            }
+        }
+        out
+    }
+
+    fn build(t: &TableDef) -> Catalog {
+        // the table under test sits between neighbours in two schemas, so that a field read at a wrong offset
+        // or carried over from the previous record shows up
+        let mut c = Catalog::new();
+        let _ = c.create_schema("s2");
+        let root = c.default_schema().to_string();
+        let before = TableDef::new(3, "before", vec![ColumnDef::new("id", DataType::Int4).with_constraint(Constraint::PrimaryKey)]).with_primary_key(vec!["id"]);
+        let after = TableDef::new(900, "zafter", vec![ColumnDef::new("v", DataType::Text).with_default("'d'")]).with_index(IndexDef::new("zi", vec!["v"], false, IndexType::BTree));
+        c.get_schema_mut(&root).unwrap().add_table(before);
+        c.get_schema_mut(&root).unwrap().add_table(t.clone());
+        c.get_schema_mut(&root).unwrap().add_table(after.clone());
+        let mut t2 = t.clone();
+        t2.rename(format!("{}_twin", t.name()));
+        c.get_schema_mut("s2").unwrap().add_table(t2);
+        c.get_schema_mut("s2").unwrap().add_table(after);
+        c
+    }
+
+    fn diff(a: &Catalog, b: &Catalog) -> Option<(String, String, String)> {
+        let mut sa: Vec<&String> = a.schemas().keys().collect();
+        let mut sb: Vec<&String> = b.schemas().keys().collect();
+        sa.sort();
+        sb.sort();
+        if sa != sb {
+            return Some(("schemas".into(), format!("{sa:?}"), format!("{sb:?}")));
+        }
+        for s in sa {
+            let (x, y) = (&a.schemas()[s], &b.schemas()[s]);
+            if x.id() != y.id() {
+                return Some(("schema-id".into(), format!("{s}: {:?}", x.id()), format!("{s}: {:?}", y.id())));
+            }
+            let mut ta: Vec<&String> = x.tables().keys().collect();
+            let mut tb: Vec<&String> = y.tables().keys().collect();
+            ta.sort();
+            tb.sort();
+            if ta != tb {
+                return Some(("tables".into(), format!("{s}: {ta:?}"), format!("{s}: {tb:?}")));
+            }
+            for t in ta {
+                let (p, q) = (&x.tables()[t], &y.tables()[t]);
+                if p != q {
+                    let part = if p.id() != q.id() {
+                        "table-id"
+                    } else if p.columns() != q.columns() {
+                        "columns"
+                    } else if p.primary_key() != q.primary_key() {
+                        "primary-key"
+                    } else if p.indexes() != q.indexes() {
+                        let (pi, qi) = (p.indexes(), q.indexes());
+                        if pi.len() != qi.len() {
+                            "index-count"
+                        } else if pi.iter().zip(qi).any(|(a, b)| a.column_defs() != b.column_defs()) {
+                            "index-columns"
+                        } else if pi.iter().zip(qi).any(|(a, b)| a.where_clause() != b.where_clause()) {
+                            "index-where"
+                        } else {
+                            "indexes"
+                        }
+                    } else if p.toast_id() != q.toast_id() {
+                        "toast-id"
+                    } else {
+                        "other"
+                    };
+                    return Some((part.into(), format!("{s}.{t}: {p:?}"), format!("{s}.{t}: {q:?}")));
+                }
+            }
+        }
+        None
+    }
+
+    fn class(label: &str) -> String {
+        // signature class: the feature group, and for single-feature cases the feature itself
+        let head = label.split(':').next().unwrap_or("");
+        // ('/' separates signature components, so labels use '|' inside a signature)
+        match head {
+            "pair" => head.to_string(),
+            "cons-index" => format!("cons-index:{}", label.rsplit('/').next().unwrap_or("")),
+            _ => label.replace('/', "|"),
+        }
+    }
+
+    pub fn check_one(label: &str, t: &TableDef, scratch: &Path, rep: &mut Reporter) {
+        let cat = build(t);
+        let lab = label.to_string();
+        let mut report = |rep: &mut Reporter, via: &str, kind: &str, exp: String, obs: String| {
+            let sig = format!("C40/catalog-serde/{via}/{kind}/{}", class(&lab));
+            let l2 = lab.clone();
+            rep.violation("C40", "catalog-serde", &sig, || json!({"scenario": "catalog-serde", "label": l2}), &vcore::util::clip(&exp, 600), &vcore::util::clip(&obs, 600));
+        };
+        // in memory
+        match vcore::catch(|| CatalogPersistence::serialize(&cat).map_err(|e| e.to_string())) {
+            Ok(Ok(bytes)) => {
+                let mut back = Catalog::new();
+                match vcore::catch(|| CatalogPersistence::deserialize(&bytes, &mut back).map_err(|e| e.to_string())) {
+                    Ok(Ok(())) => match diff(&cat, &back) {
+                        None => rep.outcome("catalog-serde/bytes/equal"),
+                        Some((k, e, o)) => {
+                            rep.outcome("catalog-serde/bytes/differs");
+                            report(rep, "bytes", &k, e, o)
+                        }
+                    },
+                    Ok(Err(e)) => {
+                        rep.outcome("catalog-serde/bytes/deserialize-error");
+                        report(rep, "bytes", "deserialize-error", "the serialized catalog deserializes".into(), e)
+                    }
+                    Err(p) => {
+                        rep.outcome("catalog-serde/bytes/deserialize-panic");
+                        report(rep, "bytes", "deserialize-panic", "the serialized catalog deserializes".into(), p)
+                    }
+                }
+                // serializing the reloaded catalog again must give a catalog equal to the first (a second generation)
+                let mut again = Catalog::new();
+                if let Ok(Ok(b2)) = vcore::catch(|| CatalogPersistence::serialize(&back).map_err(|e| e.to_string())) {
+                    if let Ok(Ok(())) = vcore::catch(|| CatalogPersistence::deserialize(&b2, &mut again).map_err(|e| e.to_string())) {
+                        if let Some((k, e, o)) = diff(&back, &again) {
+                            report(rep, "second-generation", &k, e, o);
+                        }
+                        rep.count("catalog_serde_second_generation_compared", 1);
+                    }
+                }
+            }
+            Ok(Err(e)) => {
+                rep.outcome("catalog-serde/serialize-error");
+                report(rep, "bytes", "serialize-error", "a catalog built through the public schema API serializes".into(), e)
+            }
+            Err(p) => {
+                rep.outcome("catalog-serde/serialize-panic");
+                report(rep, "bytes", "serialize-panic", "a catalog built through the public schema API serializes".into(), p)
+            }
+        }
+        // through a file, twice over the same path (the second save replaces a longer/shorter predecessor)
+        let dir = scratch.join("catser");
+        let _ = std::fs::create_dir_all(&dir);
+        let path = dir.join("turdb.catalog");
+        let big = build(&TableDef::new(5, "filler", (0..30).map(|i| ColumnDef::new(format!("f{i}"), DataType::Text).with_default("x".repeat(50))).collect()));
+        let _ = vcore::catch(|| CatalogPersistence::save(&big, &path).map_err(|e| e.to_string()));
+        match vcore::catch(|| CatalogPersistence::save(&cat, &path).map_err(|e| e.to_string())) {
+            Ok(Ok(())) => {
+                let mut back = Catalog::new();
+                match vcore::catch(|| CatalogPersistence::load(&path, &mut back).map_err(|e| e.to_string())) {
+                    Ok(Ok(())) => match diff(&cat, &back) {
+                        None => rep.outcome("catalog-serde/file/equal"),
+                        Some((k, e, o)) => {
+                            rep.outcome("catalog-serde/file/differs");
+                            report(rep, "file", &k, e, o)
+                        }
+                    },
+                    Ok(Err(e)) => report(rep, "file", "load-error", "the saved catalog loads".into(), e),
+                    Err(p) => report(rep, "file", "load-panic", "the saved catalog loads".into(), p),
+                }
+            }
+            Ok(Err(e)) => report(rep, "file", "save-error", "the catalog saves".into(), e),
+            Err(p) => report(rep, "file", "save-panic", "the catalog saves".into(), p),
+        }
+        let _ = std::fs::remove_file(&path);
+        rep.count("catalog_serde_catalogs", 1);
+    }
+
+    pub fn run(ctx: &Ctx, rep: &mut Reporter, only: Option<&str>) {
+        let list = cases(ctx.quick());
+        if ctx.worker == 0 || only.is_some() {
+            rep.bound("catalog_serde", json!({"catalogs": list.len(), "data_types": TYPES.len(), "constraint_sets": constraint_menu().len(), "fk_action_pairs": 36, "defaults": default_menu().len(), "max_lengths": MAXLEN.len(), "index_shapes": index_menu().len(), "via": ["serialize/deserialize", "second generation", "save/load over an existing longer file"]}));
+        }
+        for (i, (label, t)) in list.iter().enumerate() {
+            if let Some(o) = only {
+                if o != label {
+                    continue;
+                }
+            } else if !ctx.mine(1_000_000 + i as u64) {
+                continue;
+            }
+            rep.begin_case(&format!("{{\"scenario\":\"catalog-serde\",\"label\":{:?}}}", label));
+            check_one(label, t, &ctx.scratch, rep);
+            rep.case(vcore::util::hash_str(label) ^ 0xC40, true);
+        }
+        rep.expect_nonzero("catalog_serde_catalogs");
+    }
+}
+
 // ------------------------------------------------------------------ check
 struct Crash;
 
@@ -1152,10 +1480,17 @@ impl Check for Crash {
     }
     fn run(&self, ctx: &Ctx, rep: &mut Reporter) {
         let p = ctx.property.clone();
+        if p == "C40" {
+            catalog_serde::run(ctx, rep, None);
+        }
         explore(&p, ctx, rep, None);
     }
     fn replay(&self, ctx: &Ctx, case: &Value, rep: &mut Reporter) {
         let p = ctx.property.clone();
+        if case["scenario"].as_str() == Some("catalog-serde") {
+            catalog_serde::run(ctx, rep, case["label"].as_str());
+            return;
+        }
         let w = case["workload"].as_str().unwrap_or("").to_string();
         let e = case["event"].as_u64().unwrap_or(0) as usize;
         let m = case["model"].as_str().unwrap_or("").to_string();
